@@ -307,14 +307,124 @@ def _worker_retry(job):
         TIMEOUT_SCALE = 1
 
 
+def case_deadline_s():
+    """wall-clock limit for one contract case; a worker that exceeds it is killed (the solver library can dead-lock in
+    its time-out thread: a blocked C call cannot be interrupted from Python) and the case is reported undecided"""
+    v = os.environ.get('PYVC_CASE_DEADLINE_S')
+    if v:
+        return float(v)
+    return 2400.0 if os.environ.get('VERIF_TIER') == 'thorough' else 900.0
+
+
+def _timed_out_result(job, seconds):
+    modname, cname, ci = job
+    return {'contract': cname, 'case': str(ci), 'label': f'{cname}[#{ci}]', 'obligations': {}, 'functions': {}, 'trusted': [],
+            'known_hits': [], 'covers': [], 'bounded': None, 'paths': 0, 'stats': {}, 'dropped': {}, 'wall_s': seconds,
+            'errors': [{'kind': 'undecided', 'msg': f'case exceeded the wall-clock limit of {seconds:.0f} s (worker killed)'}]}
+
+
+def _serve(conn, fn):
+    """worker process: one job at a time, until the pipe closes"""
+    try:
+        while True:
+            try:
+                job = conn.recv()
+            except EOFError:
+                return
+            if job is None:
+                return
+            conn.send(fn(job))
+    finally:
+        conn.close()
+
+
+def supervised_map(fn, jobs, nproc, deadline_s):
+    """like Pool.map(fn, jobs) over forked workers, but every job has a wall-clock deadline enforced by the parent:
+    a worker that does not answer in time is killed and replaced, its job gets a 'case exceeded the limit' result"""
+    import multiprocessing.connection as mpc
+    ctx = mp.get_context('fork')
+    results = [None] * len(jobs)
+    pending = list(range(len(jobs)))[::-1]
+    workers = {}     # conn -> [process, job index or None, start time, jobs served]
+
+    def spawn():
+        parent, child = ctx.Pipe()
+        proc = ctx.Process(target=_serve, args=(child, fn), daemon=True)
+        proc.start()
+        child.close()
+        workers[parent] = [proc, None, 0.0, 0]
+        return parent
+
+    def give(conn):
+        w = workers[conn]
+        if not pending:
+            return False
+        i = pending.pop()
+        w[1], w[2] = i, time.time()
+        conn.send(jobs[i])
+        return True
+
+    def retire(conn, kill=False):
+        proc = workers.pop(conn)[0]
+        try:
+            if kill:
+                proc.kill()
+            else:
+                conn.send(None)
+        except Exception:
+            pass
+        conn.close()
+        proc.join(5)
+        if proc.is_alive():
+            proc.kill()
+
+    for _ in range(min(nproc, len(jobs))):
+        give(spawn())
+    while workers:
+        busy = [c for c, w in workers.items() if w[1] is not None]
+        if not busy:
+            break
+        now = time.time()
+        wait = max(0.05, min(deadline_s - (now - workers[c][2]) for c in busy))
+        for conn in mpc.wait(busy, timeout=min(wait, 5.0)):
+            w = workers[conn]
+            i = w[1]
+            try:
+                results[i] = conn.recv()
+                ok = True
+            except (EOFError, OSError):
+                # the worker died (killed by the kernel, crashed interpreter): engine failure for that case
+                r = _timed_out_result(jobs[i], time.time() - w[2])
+                r['errors'] = [{'kind': 'crash', 'msg': 'worker process died while running the case'}]
+                results[i] = r
+                ok = False
+            w[1] = None
+            w[3] += 1
+            if not ok or w[3] >= 20:          # fresh process every 20 cases (memory), or after a death
+                retire(conn, kill=not ok)
+                if pending:
+                    give(spawn())
+            elif not give(conn):
+                retire(conn)
+        now = time.time()
+        for conn in [c for c, w in workers.items() if w[1] is not None and now - w[2] > deadline_s]:
+            w = workers[conn]
+            results[w[1]] = _timed_out_result(jobs[w[1]], now - w[2])
+            print(f'case {jobs[w[1]]} exceeded {deadline_s:.0f} s: worker killed', file=sys.stderr, flush=True)
+            retire(conn, kill=True)
+            if pending:
+                give(spawn())
+    for conn in list(workers):
+        retire(conn)
+    return results
+
+
 def run_jobs(jobs, nproc=None):
     nproc = nproc or int(os.environ.get('VERIF_JOBS', '0')) or min(16, os.cpu_count() or 4)
     if len(jobs) <= 1 or nproc == 1:
         results = [_worker(j) for j in jobs]
     else:
-        ctx = mp.get_context('fork')
-        with ctx.Pool(nproc, maxtasksperchild=20) as pool:
-            results = pool.map(_worker, jobs, chunksize=1)
+        results = supervised_map(_worker, jobs, nproc, case_deadline_s())
     # a solver time-out is load dependent: cases whose only problem is an undecided obligation are re-run once, with
     # four times the solver budget and little parallelism, before the verdict is reported (never turns a refutation green)
     redo = [i for i, r in enumerate(results) if _is_undecided_only(r)]
@@ -325,9 +435,7 @@ def run_jobs(jobs, nproc=None):
     if redo and os.environ.get('PYVC_NO_RETRY') != '1':
         print(f'retrying {len(redo)} case(s) whose only problem was an undecided obligation: '
               f'{[results[i]["label"] for i in redo][:6]}', file=sys.stderr, flush=True)
-        ctx = mp.get_context('fork')
-        with ctx.Pool(min(4, len(redo)), maxtasksperchild=1) as pool:
-            again = pool.map(_worker_retry, [jobs[i] for i in redo], chunksize=1)
+        again = supervised_map(_worker_retry, [jobs[i] for i in redo], min(4, len(redo)), 2 * case_deadline_s())
         for i, r in zip(redo, again):
             r['retried'] = True
             results[i] = r
